@@ -497,6 +497,22 @@ def bounded(tier, seed):
                                     return 'synthesised time variable decodes to %s, flags say %s' % (dec[1].isoformat(), exp[1].isoformat())
                                 return None
                             run.case('C12:IOAPI-synthesised-time', (Y, J, ST, TS), t3)
+
+                            def t4(f=f, exp=exp):
+                                # the same from a file WITHOUT a time-flag variable (start date/time/step attributes only)
+                                from PseudoNetCDF.conventions.ioapi._ioapi import add_time_variable
+                                h = f.copy()
+                                add_time_variable(h, 'time')
+                                tv = h.variables['time']
+                                dec = cftime.num2date(np.asarray(tv[:], 'd'), tv.units.strip(), only_use_cftime_datetimes=False,
+                                                      only_use_python_datetimes=True)
+                                if len(dec) != len(exp) or any(abs((a.replace(tzinfo=utc) - b).total_seconds()) > 1e-3 for a, b in zip(dec, exp)):
+                                    return 'time variable synthesised from SDATE/STIME/TSTEP decodes to %s, the attributes say %s' % (dec[0].isoformat(), exp[0].isoformat())
+                                got = list(h.getTimes())
+                                if any(abs((a - b).total_seconds()) > 1e-3 for a, b in zip(got, exp)):
+                                    return 'getTimes after synthesising the time variable: %s, the attributes say %s' % (got[0].isoformat(), exp[0].isoformat())
+                                return None
+                            run.case('C12:IOAPI-synthesised-time from attributes only', (Y, J, ST, TS), t4)
         if run.out_of_time():
             break
     return run.result(
